@@ -52,7 +52,11 @@ def run(ctx):
         ctx.tlc_mc("PacketScan", "MC_PacketScan_R3W2", workers=16, timeout=3000, xmx="16g")
     trace = pipeline_traces(ctx, free=60 if quick else 700, big=2 if quick else 12, cancel=0, procs=4 if quick else 8, label="c07")
     nruns, nev = vf.validate_runs(ctx, "PacketScanObsTrace", trace, keyfn=keyfn, label="pipeline free runs", timeout=3000)
-    ctx.count(0, [("run", i) for i in range(nruns)])
+    # the same pipeline under the real runner with one real (icmp) filler shared by 8-16 builders, as the commands wire it
+    from checks import c16
+    ta, _tb = c16.pkt_traces(ctx, 0, 0, 2 if quick else 6, "c07r", real_runs=2 if quick else 6)
+    n2, _ = vf.validate_runs(ctx, "PacketScanObsTrace", ta, keyfn=keyfn, label="pipeline with a shared real filler", timeout=3000)
+    ctx.count(0, [("run", i) for i in range(nruns + n2)])
     for r0 in vf.split_runs(vf.read_ndjson(trace))[:2]:
         ctx.sample(r0[:60])
     ctx.assumptions += ["sync.Pool is a finite free set without GC in the model",
